@@ -80,4 +80,8 @@ class LxmlEventHandler(XmlHandler):
             else:
                 raise XmlHandlerError(f"Unhandled event: `{event}`.")
 
+        if self.queue:
+            # The tokenizer gave up before the root element was closed
+            return None
+
         return self.objects[-1][1] if self.objects else None
